@@ -246,6 +246,10 @@ func (c *confiner) provOf(v ssa.Value, at ssa.Instruction) []prov {
 		return c.provOfParam(x)
 	case *ssa.FreeVar:
 		var out []prov
+		if c.isGoTarget(x.Parent()) {
+			// the pointer crosses a go statement: whatever its origin, the access runs in another goroutine
+			return []prov{{pvOther, x.Parent()}}
+		}
 		for _, b := range freeVarBindings(x) {
 			// the binding lives in the parent function
 			mcAt := at
@@ -502,4 +506,18 @@ func (w *World) namedByTypeName(tn string) types.Type {
 		return nil
 	}
 	return n
+}
+
+func (c *confiner) isGoTarget(fn *ssa.Function) bool {
+	if fn == c.owner {
+		return false
+	}
+	for _, g := range c.w.Roles().GoSites {
+		for _, t := range c.w.goTargets(g) {
+			if t == fn {
+				return true
+			}
+		}
+	}
+	return false
 }
